@@ -172,6 +172,7 @@ JVParse(e) ==
        \cup Chk(e.print2 = e.print, "C12:fixed-point")
        \cup Chk(e.json = <<34>> \o e.print \o <<34>>, "C12:json-is-printed-string")
        \cup Chk(e.jback.out = "ok" /\ e.jback.val = e.val, "C12:json-roundtrip")
+       \cup Chk(\A k \in Idx(e.jroutes) : e.jroutes[k].out = "ok" /\ e.jroutes[k].val = e.val, "C12:json-roundtrip-other-routes")
        \cup Chk(e.ispre = IsPre(e.val), "X:is-prerelease")
         ELSE {})
   \* ---- C17
